@@ -660,3 +660,30 @@ package main
 //@   noinline
 //@ func (*Proxy).addRecordRoute
 //@   noinline
+
+// ---- received / rport stamping (C07) ----
+
+//@ func (*Message).SetReceived
+//@   props C07
+//@   modifies Header.value, ViaParam.Params
+//@   ensures none: firstIdx(m.headers, "Via") < 0 ==> result != nil
+//@   ensures failed: result != nil ==> (forall h *Header :: h.value == old(h.value)) && (forall q *ViaParam :: old(allocated(q)) ==> q.Params == old(q.Params))
+//@   ensures stamped: result == nil ==> isType(m.headers[firstIdx(m.headers, "Via")].value, "*Via")
+//@        && len(asRef(m.headers[firstIdx(m.headers, "Via")].value, "*Via").params) >= 1
+//@        && kvHas(asRef(m.headers[firstIdx(m.headers, "Via")].value, "*Via").params[0].Params, "received")
+//@        && kvGet(asRef(m.headers[firstIdx(m.headers, "Via")].value, "*Via").params[0].Params, "received") == peerAddr
+//@   ensures typed-received: result == nil && isType(old(m.headers[firstIdx(m.headers, "Via")].value), "*Via") ==>
+//@        (forall h *Header :: h.value == old(h.value))
+//@   ensures rport-iff-requested: result == nil && isType(old(m.headers[firstIdx(m.headers, "Via")].value), "*Via") ==>
+//@        (kvHas(asRef(m.headers[firstIdx(m.headers, "Via")].value, "*Via").params[0].Params, "rport") == kvHas(old(asRef(m.headers[firstIdx(m.headers, "Via")].value, "*Via").params[0].Params), "rport"))
+//@   ensures rport-true-port: result == nil && kvHas(asRef(m.headers[firstIdx(m.headers, "Via")].value, "*Via").params[0].Params, "rport") ==>
+//@        kvGet(asRef(m.headers[firstIdx(m.headers, "Via")].value, "*Via").params[0].Params, "rport") == itoa(peerPort)
+//@   ensures other-entries-untouched: forall q *ViaParam :: old(allocated(q)) && (result != nil || q != asRef(m.headers[firstIdx(m.headers, "Via")].value, "*Via").params[0]) ==> q.Params == old(q.Params)
+//@   ensures frame: forall h *Header :: firstIdx(m.headers, "Via") < 0 || h != m.headers[firstIdx(m.headers, "Via")] ==> h.value == old(h.value)
+//@   ensures other-params-kept: result == nil && isType(old(m.headers[firstIdx(m.headers, "Via")].value), "*Via") ==>
+//@        len(asRef(m.headers[firstIdx(m.headers, "Via")].value, "*Via").params[0].Params) >= len(old(asRef(m.headers[firstIdx(m.headers, "Via")].value, "*Via").params[0].Params))
+//@        && (forall j int :: 0 <= j && j < len(old(asRef(m.headers[firstIdx(m.headers, "Via")].value, "*Via").params[0].Params))
+//@              && old(asRef(m.headers[firstIdx(m.headers, "Via")].value, "*Via").params[0].Params)[j].Key != "received" && old(asRef(m.headers[firstIdx(m.headers, "Via")].value, "*Via").params[0].Params)[j].Key != "rport"
+//@              ==> asRef(m.headers[firstIdx(m.headers, "Via")].value, "*Via").params[0].Params[j] == old(asRef(m.headers[firstIdx(m.headers, "Via")].value, "*Via").params[0].Params)[j])
+//@   ensures entry-list-kept: result == nil && isType(old(m.headers[firstIdx(m.headers, "Via")].value), "*Via") ==>
+//@        asRef(m.headers[firstIdx(m.headers, "Via")].value, "*Via").params == old(asRef(m.headers[firstIdx(m.headers, "Via")].value, "*Via").params)
